@@ -32,7 +32,7 @@ theorem xor_xor_xor_comm (a b c d : Nat) : (a ^^^ b) ^^^ (c ^^^ d) = (a ^^^ c) ^
 theorem xsum_xor (n : Nat) (f g : Nat → Nat) :
     xsum n (fun i => f i ^^^ g i) = xsum n f ^^^ xsum n g := by
   induction n with
-  | zero => rfl
+  | zero => simp
   | succ n ih => simp only [xsum_succ, ih]; ac_rfl
 
 theorem xsum_lt_two_pow {n k : Nat} {f : Nat → Nat} (h : ∀ i, i < n → f i < 2 ^ k) : xsum n f < 2 ^ k := by
@@ -67,7 +67,7 @@ theorem IsLin.zero {A : Nat → Nat} (h : IsLin A) : A 0 = 0 := by
   have h2 : A 0 ^^^ A 0 = 0 := Nat.xor_self _
   omega
 
-theorem IsLin.xsum {A : Nat → Nat} (h : IsLin A) (n : Nat) (f : Nat → Nat) :
+theorem IsLin.map_xsum {A : Nat → Nat} (h : IsLin A) (n : Nat) (f : Nat → Nat) :
     A (xsum n f) = xsum n (fun i => A (f i)) := by
   induction n with
   | zero => exact h.zero
@@ -78,7 +78,7 @@ theorem IsLin.ite {A : Nat → Nat} (h : IsLin A) (c : Bool) (v : Nat) :
   cases c <;> simp [h.zero]
 
 theorem IsLin.comp {A B : Nat → Nat} (hA : IsLin A) (hB : IsLin B) : IsLin (fun v => A (B v)) := by
-  intro a b; simp only [hB a b, hA]
+  intro a b; show A (B (a ^^^ b)) = A (B a) ^^^ A (B b); rw [hB, hA]
 
 theorem IsLin.xor {A B : Nat → Nat} (hA : IsLin A) (hB : IsLin B) : IsLin (fun v => A v ^^^ B v) := by
   intro a b; simp only [hA a b, hB a b]; ac_rfl
@@ -86,9 +86,9 @@ theorem IsLin.xor {A B : Nat → Nat} (hA : IsLin A) (hB : IsLin B) : IsLin (fun
 theorem isLin_id : IsLin (fun v => v) := fun _ _ => rfl
 theorem isLin_zero : IsLin (fun _ => 0) := fun _ _ => by simp
 
-theorem isLin_shiftLeft (k : Nat) : IsLin (fun v => v <<< k) := fun a b => Nat.shiftLeft_xor_distrib
-theorem isLin_shiftRight (k : Nat) : IsLin (fun v => v >>> k) := fun a b => Nat.shiftRight_xor_distrib
-theorem isLin_mod_two_pow (k : Nat) : IsLin (fun v => v % 2 ^ k) := fun a b => Nat.xor_mod_two_pow
+theorem isLin_shiftLeft (k : Nat) : IsLin (fun v => v <<< k) := fun _ _ => Nat.shiftLeft_xor_distrib
+theorem isLin_shiftRight (k : Nat) : IsLin (fun v => v >>> k) := fun _ _ => Nat.shiftRight_xor_distrib
+theorem isLin_mod_two_pow (k : Nat) : IsLin (fun v => v % 2 ^ k) := fun _ _ => Nat.xor_mod_two_pow
 theorem isLin_div_two_pow (k : Nat) : IsLin (fun v => v / 2 ^ k) := fun a b => by
   simp only [← Nat.shiftRight_eq_div_pow]; exact Nat.shiftRight_xor_distrib
 theorem isLin_mul_two_pow (k : Nat) : IsLin (fun v => v * 2 ^ k) := fun a b => by
@@ -115,7 +115,7 @@ theorem xor_two_pow_of_lt {x n : Nat} (h : x < 2 ^ (n + 1)) :
     simp [hk, this]
   · by_cases hkn : k = n
     · subst hkn
-      cases hx : x.testBit k <;> simp [Nat.testBit_two_pow]
+      cases hx : x.testBit k <;> simp
     · have h1 : x.testBit k = false :=
         Nat.testBit_lt_two_pow (Nat.lt_of_lt_of_le h (Nat.pow_le_pow_right (by decide) (by omega)))
       have : (if x.testBit n then 2 ^ n else 0).testBit k = false := by
@@ -140,7 +140,7 @@ theorem xsum_bits {n x : Nat} (h : x < 2 ^ n) : xsum n (fun i => if x.testBit i 
 theorem IsLin.apply_eq_xsum {A : Nat → Nat} (hA : IsLin A) {n x : Nat} (h : x < 2 ^ n) :
     A x = xsum n (fun i => if x.testBit i then A (2 ^ i) else 0) := by
   conv => lhs; rw [← xsum_bits h]
-  rw [hA.xsum]
+  rw [hA.map_xsum]
   apply xsum_congr; intro i _; exact hA.ite _ _
 
 /-- two linear maps that agree on 2^0 .. 2^(n-1) agree below 2^n -/
